@@ -132,6 +132,16 @@ def conc_scripts(c, lib, count, sid0):
                         conf=dict(size=1000, max=0, timeout_ms=100, keyed=False, limit=0), pendmax=0,
                         producers=[[dict(shape=one, md="a", gap_us=20000) for _ in range(130)]], shutdown_after=-1,
                         sink_fail=[], sink_delay_us=0, slack_ms=2000))
+    # a timeout-triggered flush that downstream REFUSES, then later arrivals below send_batch_size: they too are emitted no
+    # later than the timeout after the first of them arrived (seeded change C17-8: the timer was not re-armed after a
+    # refused timer flush, so everything later stayed pending until shutdown)
+    for k in range(3):
+        one = [[[1]]]
+        out.append(dict(sid=sid0 + len(out), signal=SIGNALS[(c.seed + k) % 3], mode="conc",
+                        conf=dict(size=1000, max=0, timeout_ms=60, keyed=False, limit=0), pendmax=0,
+                        producers=[[dict(shape=one, md="a", gap_us=0), dict(shape=one, md="a", gap_us=300000),
+                                    dict(shape=one, md="a", gap_us=2700000)]], shutdown_after=-1,
+                        sink_fail=[1], sink_delay_us=0, slack_ms=2000))
     return out
 
 
